@@ -16,6 +16,21 @@ CLAIMED = {
  "C03": ("registry/delegation/wrapper shape rules over go/types + go/ssa; wire-layout sibling comparison",
          "Structural necessary conditions only: the two decoder registries agree key-by-key (same pairing, same concrete box types), every delegating reader-path decoder delegates to its registered twin over exactly its own body, every Encode wrapper allocates Size() and writes what EncodeSW produced, separately written decoder/encoder pairs have the same wire layout, the file-level encoders visit the same members. Not decided: numeric equality of start positions, error texts.",
          "go/types + go/ssa of x/tools v0.29.0 are trusted; dynamic calls in decoders are not resolved (none today).", "DESIGN.md §4 C03"),
+ "C04": ("SSA taint + dominance guard analysis, loop-cycle analysis, call-graph reachability of explicit panics",
+         "Structural necessary conditions over everything reachable from the decode / Info / Encode / Size entry points: no explicit panic reachable; every allocation sized by a wide untrusted value (reader results, BoxHeader.Size on the reader path) is dominated by a comparison on that value (also recognised when the value was validated where it was stored into a struct field, under conditions that hold at the allocation); every cycle of a loop that consumes the stream passes an error test of the sticky-error reader, an exit taken on all-zero data, or a bounded counter test; io.ReadAll only on io.LimitReader. Not decided: general index-out-of-range and nil-dereference freedom, correctness of a guard's arithmetic, time constants.",
+         "taint is flow-insensitive on struct fields and does not flow through slice elements; any dominating ordering/equality comparison sharing a taint root counts as a guard; call graph VTA.", "DESIGN.md §3 E3/E4, §4 C04"),
+ "C05": ("ordering (dominance) and data-dependence obligations over go/ssa for the fragment write/read path",
+         "Narrow clauses only: SetTrunDataOffsets dominates every child encode and follows OptimizeTfhdTrun; decode time is set only under a test of the track's first run; appended samples are accounted in mdat; run numbers come from nextTrunNr which is advanced; trun data offsets depend on Moof.Size(), Mdat.HeaderSize(), SizeOfData() and write order; read-side offsets/times/defaults depend on the tfhd/trex/tfdt/trun/mdat quantities the standard names; trun optimisation compares samples with ==/!= only. Not decided: numeric correctness of offsets, arbitrary multi-track interleavings, optimisation correctness.",
+         "dependence is intraprocedural SSA data dependence plus return dependence of repository callees (3 levels).", "DESIGN.md §4 C05"),
+ "C06": ("loop-cycle pairing rule, data-dependence and ordering obligations over go/ssa for the encrypt/decrypt path",
+         "Narrow clauses only: RemoveEncryptionBoxes keeps or counts every child; DataOffset correction depends on the removed byte counts; saio offset depends on the sizes of all boxes preceding the senc data; original sample entry type captured before renaming and restored from frma; senc/saiz record the iv and pattern actually used, iv advanced afterwards (cenc) or never (cbcs); decrypt uses senc/tenc values. Not decided: byte-exact restoration, cipher arithmetic, counter wrap.",
+         "as C05.", "DESIGN.md §4 C06"),
+ "C07": ("normalised-AST sibling comparison, who-may-construct over the call graph, ordering/dependence obligations",
+         "Narrow clauses only: GetAVCProtectRanges and GetHEVCProtectRanges are identical modulo avc/hevc; SubSamplePattern values on the encrypt path are built only by AppendProtectRange; senc/saiz describe what the crypt call used and the iv advance order is right; saio offset depends on the preceding boxes. NOT decided: equality with a reference cipher, block/pattern arithmetic, partition exactness, IV carry arithmetic.",
+         "clone comparison ignores comments, local names and error texts.", "DESIGN.md §4 C07"),
+ "C16": ("SSA taint + dominance guard analysis, loop-cycle analysis, call-graph reachability of explicit panics",
+         "Structural necessary conditions over everything reachable from the exported avc/hevc/sei/aac/av1 helpers that take raw bytes or readers: no explicit panic reachable; allocations sized by wide untrusted counts are guarded; every cycle of a loop that reads from the sticky-error bit readers passes an error test, an exit taken on all-zero data, or a bounded counter test. Not decided: slice-bounds safety of the length-prefixed NAL walkers (needs value-range reasoning), time constants.",
+         "as C04.", "DESIGN.md §3 E3/E4, §4 C16"),
  "C20": ("who-may-write analysis of package-level state over go/ssa + VTA call graph",
          "Decides absence of hidden shared mutable state in the library: every write rooted at a package-level variable is in an init function or in SetBoxDecoder/RemoveBoxDecoder; no package-level sync/atomic values. This is a necessary condition for race freedom of independent objects, not a proof of it.",
          "call graph is VTA over CHA; reflection/unsafe writes and races inside the standard library are outside the model.", "DESIGN.md §4 C20"),
